@@ -16,7 +16,7 @@ func init() {
 		Run: runC10,
 		Explanation: "Static decision of the structure of volume placement: (1) PROV-counts: the three node picks of findEmptySlotsForOneVolume ask the topology / main data center / main rack for DiffDataCenterCount+1 / DiffRackCount+1 / SameRackCount+1 nodes; each first-node filter refuses a non-matching preferred data center / rack / server and a node with fewer free slots than the replicas it must hold; " +
 			"(2) COUNT-rest: PickNodesByWeight fails when it has fewer candidates than requested, skips children without a free slot, and returns exactly numberOfNodes-1 rest nodes in both branches; (3) ERR-reserve: a failed reservation in another rack / data center, a failed pick and a failed volume-id allocation make the growth return an error (no partial placement is grown); every picked/reserved server is appended exactly once. " +
-			"Whether the random selection yields distinct servers over arbitrary topologies is not decided.",
+			"Whether the random selection yields distinct servers over arbitrary topologies is not decided. Also decided (SIB-free-formula): the free-slot computation used for placement and the one of the usage counters are the same expression over the counters (EC shards charged identically).",
 		Assumptions: []string{"ReserveOneVolume returns a server with a free slot of the requested disk type or an error"},
 		Trusted:     baseTrusted,
 	})
